@@ -1180,8 +1180,196 @@ func flagName(t string) string {
 	return t
 }
 
+// c07dScannerCounters: two more loop variables of the word scanner are part of its meaning.
+// The nesting depth of brace groups moves by one ('{' up, '}' down) — a depth that is set instead
+// of counted forgets the outer group. The start of the word is fixed where the first character
+// of the word is met: in the ordinary-character arm while nothing but blanks was seen, in the
+// backslash arm while no ordinary character was seen (a backslash that is not a break code is
+// part of the word it starts).
+func c07dScannerCounters(c *Ctx) {
+	fn := c.Fn("parser.FontConfig.getNextWord")
+	if fn == nil {
+		return
+	}
+	var head *ssa.BasicBlock
+	for _, b := range fn.Blocks {
+		if isLoopHeader(b) && head == nil {
+			head = b
+		}
+	}
+	if head == nil {
+		c.Bad("getNextWord/counters", c.W.FuncPos(fn), "the scanning loop was not found")
+		return
+	}
+	nDepth, nStart := 0, 0
+	for _, in := range head.Instrs {
+		ph, ok := in.(*ssa.Phi)
+		if !ok {
+			continue
+		}
+		bt, isB := ph.Type().Underlying().(*types.Basic)
+		if !isB || bt.Kind() != types.Int || strings.Contains(ph.Comment, "rangeindex") {
+			continue
+		}
+		name := flagName(c.term(fn, ph))
+		// what can come round the loop in this variable
+		var leaves []ssa.Value
+		seen := map[ssa.Value]bool{ph: true}
+		var gather func(v ssa.Value)
+		gather = func(v ssa.Value) {
+			if seen[v] {
+				return
+			}
+			seen[v] = true
+			if q, isPhi := v.(*ssa.Phi); isPhi && loopBody(head)[q.Block()] {
+				for _, e := range q.Edges {
+					gather(e)
+				}
+				return
+			}
+			leaves = append(leaves, v)
+		}
+		for i, e := range ph.Edges {
+			if head.Dominates(head.Preds[i]) {
+				gather(e)
+			}
+		}
+		isDepth, isPos := false, false
+		for _, lf := range leaves {
+			if bo, isBo := lf.(*ssa.BinOp); isBo && bo.X == ssa.Value(ph) {
+				isDepth = true
+			}
+			if ex, isEx := lf.(*ssa.Extract); isEx {
+				if _, isNext := ex.Tuple.(*ssa.Next); isNext {
+					isPos = true
+				}
+			}
+		}
+		if isDepth {
+			nDepth++
+			for i, lf := range leaves {
+				okStep := false
+				if bo, isBo := lf.(*ssa.BinOp); isBo && bo.X == ssa.Value(ph) && (bo.Op == token.ADD || bo.Op == token.SUB) {
+					if k, isC := intConst(bo.Y); isC && k == 1 {
+						okStep = true
+					}
+				}
+				c.Check(okStep, fmt.Sprintf("getNextWord/depth-moves-by-one/%s#%d", name, i), c.W.Pos(ph.Pos()), "the brace depth goes up or down by one", "the brace depth "+name+" is set to "+pretty(c.term(fn, lf))+" instead of being counted up or down by one: inside nested groups a blank would end the word")
+			}
+		}
+		isLow := false
+		for _, b := range fn.Blocks {
+			for _, in2 := range b.Instrs {
+				if sl, isSl := in2.(*ssa.Slice); isSl && sl.Low != nil && seen[sl.Low] {
+					isLow = true
+				}
+			}
+		}
+		if isPos && !isDepth && isLow {
+			// position variables set to the current offset: startPos (and endPos)
+			for _, b := range fn.Blocks {
+				if !loopBody(head)[b] {
+					continue
+				}
+				for _, in3 := range b.Instrs {
+					q, isPhi := in3.(*ssa.Phi)
+					if !isPhi {
+						continue
+					}
+					for i, e := range q.Edges {
+						ex, isEx := e.(*ssa.Extract)
+						if !isEx {
+							continue
+						}
+						if _, isNext := ex.Tuple.(*ssa.Next); !isNext || ex.Index != 1 {
+							continue
+						}
+						// is q (transitively) an incoming value of ph?
+						if !seen[q] {
+							continue
+						}
+						must := c.edgeMust(fn, q.Block().Preds[i], q.Block())
+						var flags []string
+						backslash := false
+						for _, l := range must {
+							if strings.HasPrefix(l, "-phi(") || strings.HasPrefix(l, "+phi(") {
+								flags = append(flags, l[:1]+flagName(l[1:]))
+							}
+							if strings.HasPrefix(l, "+(") && strings.HasSuffix(l, " == 92)") {
+								backslash = true
+							}
+						}
+						if len(flags) == 0 {
+							continue // set unconditionally (endPos)
+						}
+						nStart++
+						// which flag: the one the empty-word return tests in the ordinary arm, the other one in the backslash arm
+						want := startFlag(c, fn, backslash)
+						okFlag := want != "" && len(flags) >= 1
+						if okFlag {
+							has := false
+							for _, f := range flags {
+								if f == "-"+want {
+									has = true
+								}
+							}
+							okFlag = has
+						}
+						c.Check(okFlag, fmt.Sprintf("getNextWord/word-start/%s#%d", name, nStart), c.W.Pos(q.Pos()), "the start of the word is set while the right 'nothing seen yet' flag is still down", fmt.Sprintf("%s is set to the current offset under %v, expected under -%s: the word would start too late (its first character — a backslash that is no break code — is lost) or too early", name, flags, want))
+					}
+				}
+			}
+		}
+	}
+	c.Check(nDepth == 1 && nStart >= 2, "getNextWord/counters", c.W.FuncPos(fn), fmt.Sprintf("%d depth counter, %d settings of the word start", nDepth, nStart), fmt.Sprintf("found %d depth counters and %d settings of the word start in getNextWord, expected 1 and 2", nDepth, nStart))
+}
+
+// startFlag: the flag under whose absence the word start is set in the ordinary arm is the flag
+// the empty-word return tests ("nothing but blanks seen"); in the backslash arm it is the other
+// boolean found-flag of the scanner ("no ordinary character seen").
+func startFlag(c *Ctx, fn *ssa.Function, backslash bool) string {
+	empty := ""
+	for _, r := range returnsOf(fn) {
+		if len(r.Results) == 2 {
+			if k, isC := strConst(r.Results[1]); isC && k == "" {
+				for _, l := range c.mustLits(fn, r.Block()) {
+					if strings.HasPrefix(l, "-phi(") {
+						empty = flagName(l[1:])
+					}
+				}
+			}
+		}
+	}
+	if !backslash {
+		return empty
+	}
+	// the other found-flag: a boolean loop variable that is set to true together with `empty`
+	// in the ordinary arm and is not the escape / end-on-next flag
+	other := ""
+	for _, b := range fn.Blocks {
+		if !isLoopHeader(b) {
+			continue
+		}
+		for _, in := range b.Instrs {
+			ph, ok := in.(*ssa.Phi)
+			if !ok {
+				continue
+			}
+			if bt, isB := ph.Type().Underlying().(*types.Basic); !isB || bt.Kind() != types.Bool {
+				continue
+			}
+			n := flagName(c.term(fn, ph))
+			if n != empty && strings.HasPrefix(strings.ToLower(n), "found") {
+				other = n
+			}
+		}
+	}
+	return other
+}
+
 func c07d(c *Ctx) {
 	c07dWordFound(c)
+	c07dScannerCounters(c)
 	ft := c.Fn("parser.FontConfig.FormatText")
 	if ft == nil {
 		return
@@ -1528,6 +1716,10 @@ func c07e(c *Ctx) {
 			}
 			n++
 			key := fmt.Sprintf("getWidth/table-value#%d", n)
+			// the table is the table of the font that was asked for: the entry is read out of
+			// fc.Fonts[<the fontID parameter>].Widths (the default of another font is not a default
+			// for this one)
+			c.Check(strings.Contains(t, ".Fonts[$2]") && strings.Count(t, ".Fonts[") == 1, key+"/of-the-font-asked-for", pos, "the width is read from the table of the font that was asked for", "the width "+pretty(t)+" is not read from fc.Fonts[fontID] of the font id getWidth was given: glyphs would be measured with another font's table")
 			if !strings.HasSuffix(t, "#0") {
 				c.Bad(key, pos, "the width "+pretty(t)+" is read from the table without its presence bit: an entry listed with width 0 is indistinguishable from a missing one")
 				continue
